@@ -22,6 +22,8 @@ import (
 var layouts = []string{
 	time.ANSIC, time.UnixDate, time.RFC822, time.RFC822Z, time.RFC850, time.RFC1123, time.RFC1123Z, time.RFC3339, time.RFC3339Nano, time.Kitchen,
 	"Jan _2 15:04:05", "Jan 02 15:04:05", "Jan  2 15:04:05", "2006-01-02", "2006-02-01", "02/Jan/2006:15:04:05 -0700", "2006/01/02 15:04:05", "2006-01-02 15:04:05.000", "20060102150405", "15:04:05", "Jan _2 15:04:05 2006", "02/01/2006 15:04", "01/02/2006 15:04",
+	// year-less layouts that carry their own zone (current-year option + explicit offset)
+	"Jan _2 15:04:05 -0700", "Jan _2 15:04:05 MST", "02 Jan 15:04:05 -07:00", "Jan _2 15:04:05 Z07:00",
 }
 
 // layout pairs for which some text is valid under both with different meanings
